@@ -32,7 +32,7 @@ def run(ctx):
     ctx.coverage.update({
         "evaluations": st["texts"] + st["files"] + st["text_cases"],
         "distinct_nontrivial": len(distinct),
-        "rule": "generated corpus (identifiers incl. raw identifiers/keywords/non-ASCII, rename/tag/content strings incl. spaces, hyphens, leading digits, `$`, `.`, the empty string, quotes and backslashes, adversarial doc text, every rename_all rule on plain and type-overridden fields), compiled against /repo; for every export Coq evaluates export_okb (the hypothesis of C04_export_parses: the text is then derivable in the grammar of Spec/TsGrammar.v; the independent reader must accept the same real text); every real export_to_string() and every file written by export_all_to of every exportable corpus type (incl. files shared by several types) is parsed by the independent lexer + recursive-descent parser (tools/tsparse.py, written from the TypeScript grammar): begins with the notice, only `import type` statements followed by `export type` declarations, every requested type declared exactly once under its TypeScript name, no reserved word as a type name, final newline; model text vs real text byte for byte; non-trivial = distinct files/texts parsed",
+        "rule": "generated corpus (identifiers incl. raw identifiers/keywords/non-ASCII, rename/tag/content strings incl. spaces, hyphens, leading digits, `$`, `.`, the empty string, quotes and backslashes, adversarial doc text, every rename_all rule on plain and type-overridden fields), compiled against /repo; the clean sub-environment (def_cleanb, hypothesis of C04_generated_declaration_is_checked) of every corpus is computed in Coq and every declaration it covers is evaluated against decl_ok and against the corpus declaration; for every export Coq evaluates export_okb (the hypothesis of C04_export_parses: the text is then derivable in the grammar of Spec/TsGrammar.v; the independent reader must accept the same real text); every real export_to_string() and every file written by export_all_to of every exportable corpus type (incl. files shared by several types) is parsed by the independent lexer + recursive-descent parser (tools/tsparse.py, written from the TypeScript grammar): begins with the notice, only `import type` statements followed by `export type` declarations, every requested type declared exactly once under its TypeScript name, no reserved word as a type name, final newline; model text vs real text byte for byte; non-trivial = distinct files/texts parsed",
         "samples": samples[:5],
         "distribution": st,
     })
@@ -103,7 +103,15 @@ def check_one(ctx, res, seed, st, samples, distinct):
                     type=C.rust_ty(t), text=text, reader=pr, seed=seed), no_input=True)
         else:
             st["outside_grammar_theorem"] = st.get("outside_grammar_theorem", 0) + 1
-    # (2) every file of every real export tree
+    # (1c) C04_generated_declaration_is_checked: the clean sub-environment of this corpus and the declarations it covers
+    bits = gen_theorem_instances(res)
+    st["clean_env_definitions"] = st.get("clean_env_definitions", 0) + len(bits)
+    st["clean_env_declarations_checked"] = st.get("clean_env_declarations_checked", 0) + bits.count("1")
+    st["clean_env_refers_outside"] = st.get("clean_env_refers_outside", 0) + bits.count("0")
+    if "3" in bits and not mism:
+        ctx.fail("the declaration of a definition inside the clean sub-environment differs from its declaration in the corpus environment", dict(
+            kind="correspondence-broken", broken="Spec/GenClean.v: clean sub-environment vs corpus environment (duplicate identifiers?)",
+            index=bits.index("3"), seed=seed), no_input=True)
     status = CR.run_export(res["exe"], EXPORT_DIR)
     path_types = {}
     for d in res["defs"]:
@@ -145,6 +153,34 @@ def check_one(ctx, res, seed, st, samples, distinct):
         ctx.fail("model and implementation disagree on generated text (correspondence)", dict(
             kind="correspondence-broken", broken="Corr/corpus_env: Model/Gen.v + GenExport.v vs real export_to_string()/decl()", first=mism[0], count=len(mism), seed=seed),
             no_input=True)
+
+
+def gen_theorem_instances(res):
+    """C04_generated_declaration_is_checked on the corpus: R2 = the definitions passing def_cleanb (the theorem's hypothesis
+    clean_envb holds of R2 by construction and is evaluated all the same); per definition of R2: '0' decl() does not answer inside
+    R2 (it refers to a definition outside), '1' answers, passes decl_ok and is the declaration of the full environment,
+    '2' answers and FAILS decl_ok (would contradict the theorem), '3' differs from the full environment's declaration."""
+    body = ("From TsRs Require Import Corr.%s Spec.TsSyn Spec.GenClean.\n" % res["envname"] + CR.HEADER +
+            "Definition bit (b : bool) : N := if b then 49 else 48.\n"
+            "Definition R2 := filter (fun p => def_cleanb is_upper is_alnum is_numeric (snd p)) R.\n"
+            "Definition inst (p : str * typedef) : N :=\n"
+            "  match decl_of is_upper is_alnum is_numeric R2 fuel (snd p) with\n"
+            "  | Ok dc => if decl_ok is_alnum is_numeric dc && docs_okb (d_docs dc)\n"
+            "             then match decl_text is_upper is_alnum is_numeric R fuel (snd p) with Ok s => if str_eqb s (print_decl dc) then 49 else 51 | _ => 51 end\n"
+            "             else 50\n"
+            "  | _ => 48\n"
+            "  end.\n"
+            "Eval vm_compute in (bit (clean_envb is_upper is_alnum is_numeric R2) :: map inst R2).\n")
+    ok, out = vlib.coq_eval("%s_syn2" % res["envname"], body, timeout=1800)
+    if not ok:
+        raise vlib.HarnessError("generated-declaration theorem instance file failed: " + out[-3000:])
+    vals = vlib.parse_coq_str_list("[" + out.split("=", 1)[1].rsplit(":", 1)[0] + "]")
+    bits = vals[0] if vals else ""
+    if not bits or bits[0] != "1":
+        raise vlib.HarnessError("clean_envb is false of the filtered environment")
+    if "2" in bits[1:]:
+        raise vlib.HarnessError("C04_generated_declaration_is_checked contradicted by evaluation (definition #%d of the clean sub-environment)" % bits[1:].index("2"))
+    return bits[1:]
 
 
 def syntax_checks(res):
